@@ -18,6 +18,13 @@ func TestVerif(t *testing.T) {
 func unitsA() []verifsim.Unit {
 	return []verifsim.Unit{
 		{
+			Name: "AB.thr", Props: []string{"C05", "C06", "C04", "C17"}, Run: runAB,
+			Rule:    "one case = world-A history with long stretches of continuous motion, seeded throttle configuration (bucket 1-30 s, refill 1-90 s, minimum clip = min-secs+preview-secs as main.go wires it); real MotionProcessor -> real ThrottledRecorder (bucket on the simulated clock) -> tracing sink; executed with and without the throttle; non-trivial = frames reached storage and (a throttle cut or >= 2 files); distinct = throttle configuration + files/cuts + event string",
+			Measure: "ab = (capacity, minimum clip, cuts, files)",
+			Real:    append([]string{"throttle.ThrottledRecorder", "juju/ratelimit.Bucket"}, realA...), Stub: stubA,
+			Assumptions: []string{"one clock serves as wall clock and token-bucket clock; it only moves forward in this unit", "file creation always succeeds here (disk-space refusals are injected)"},
+		},
+		{
 			Name: "A.ring", Props: []string{"C19"}, Run: runARing,
 			Rule:    "one case = capacity 1-12 + seeded sequence (<= 6*capacity+4) over {write tag, write+Move, SetAsOldest, Reset}; GetHistory/Oldest/CopyRecent/Current are compared with R-ring after every step; non-trivial = at least three operations; distinct = capacity + operation string",
 			Measure: "c19.state = abstract ring states (capacity, position mod capacity, wrapped, mark offset) reached",
